@@ -16,7 +16,7 @@ Definition C08_nested_full : Prop :=
    union's first accepting member forwards the same flags as the value's own class (no D8b) *)
 Theorem C08_nested_partial :
   forall (ct: list cls) (n: node) (cid: nat) (k: kwv),
-    ok_h ct n [cid] root_flags k = true -> to_dict_h ct false n cid k = to_dict_h ct true n cid k.
+    ok_h ct n [cid] root_flags k None = true -> to_dict_h ct false n cid k = to_dict_h ct true n cid k.
 Proof. exact nested_partial. Qed.
 Print Assumptions C08_nested_partial.
 
@@ -33,25 +33,39 @@ Proof. exact forwarded_exactly. Qed.
 Print Assumptions C08_forwarded_exactly.
 
 (* ... so a class that enabled no keyword flag is serialized identically under every outer class,
-   outer flag set and outer run-time keyword values *)
+   outer flag set and outer run-time keyword values (pd: default dialect handed down by the
+   compiling builder, = None under a mixin root by K14 / pass_dd) *)
 Theorem C08_no_leak :
-  forall (ct: list cls) (spec: bool) (cid: nat) (ch: list node) (outer outer': flags) (a a': kwv),
+  forall (ct: list cls) (spec: bool) (cid: nat) (ch: list node) (outer outer': flags) (a a': kwv) (pd: option ns),
     flags_c ct cid = no_flags ->
-    pack_h ct spec (NObj cid ch) [cid] outer a = pack_h ct spec (NObj cid ch) [cid] outer' a'.
+    pack_h ct spec (NObj cid ch) [cid] outer a pd = pack_h ct spec (NObj cid ch) [cid] outer' a' pd.
 Proof. exact no_leak. Qed.
 Print Assumptions C08_no_leak.
 
-(* non-vacuity: Outer (omit_none flag, Config.omit_none) with an Inner that opted in and one that did not *)
+(* a nested class that set nothing -- mixin or plain dataclass, whichever owner compiled it first --
+   contributes exactly its own plain serialization *)
+Theorem C08_option_free_is_plain :
+  forall (ct: list cls) (cid: nat) (c: cls) (vs: list fval) (outer: flags) (a: kwv),
+    nth_error ct cid = Some c -> option_free c ->
+    List.length vs = List.length c.(c_fields) ->
+    forallb (fun p => negb p.(p_omit)) (map fst c.(c_fields)) = true ->
+    pack_h ct false (NObj cid (map leaf vs)) [cid] outer a None
+    = Some (POpq 0, PDict (dict_of (plain_out (map fst c.(c_fields)) vs))).
+Proof. exact option_free_is_plain. Qed.
+Print Assumptions C08_option_free_is_plain.
+
+(* non-vacuity: Outer (omit_none flag, Config.dialect.omit_none) with a mixin Inner that opted in and a
+   plain Inner that did not *)
 Definition ex_ct : list cls :=
-  [ {| c_cfgd := None; c_cfg := {| n_on := T; n_od := U; n_ba := U |}; c_sort := false; c_flags := fl_on;
+  [ {| c_mixin := true; c_cfgd := Some {| n_on := T; n_od := U; n_ba := U |}; c_cfg := ns_unset; c_sort := false; c_flags := fl_on;
        c_fields := [({| p_name := "i"; p_alias := None; p_tynull := false; p_trivial := false; p_default := DNo; p_omit := false |}, [1]);
                     ({| p_name := "j"; p_alias := None; p_tynull := false; p_trivial := false; p_default := DNo; p_omit := false |}, [2]);
                     (fld "x", [])] |};
-    {| c_cfgd := None; c_cfg := ns_unset; c_sort := false; c_flags := fl_on; c_fields := [(fld "a", [])] |};
-    {| c_cfgd := None; c_cfg := ns_unset; c_sort := false; c_flags := fl_none; c_fields := [(fld "b", [])] |} ]%nat.
+    {| c_mixin := true; c_cfgd := None; c_cfg := ns_unset; c_sort := false; c_flags := fl_on; c_fields := [(fld "a", [])] |};
+    {| c_mixin := false; c_cfgd := None; c_cfg := ns_unset; c_sort := false; c_flags := fl_none; c_fields := [(fld "b", [])] |} ]%nat.
 Definition ex_inst : node := NObj 0 [NObj 1 [NLeaf PNone PNone]; NObj 2 [NLeaf PNone PNone]; NLeaf PNone PNone].
 
 Example C08_nested_nonvacuous :
-  ok_h ex_ct ex_inst [0%nat] root_flags no_kw = true /\
+  ok_h ex_ct ex_inst [0%nat] root_flags no_kw None = true /\
   to_dict_h ex_ct false ex_inst 0 no_kw = Some (PDict [("i", PDict []); ("j", PDict [("b", PNone)])]).
 Proof. split; reflexivity. Qed.
